@@ -54,12 +54,12 @@ def main(tier, seed):
     variants = [("asan-hist", cx.exe("asan-hist", driver=("drv/hist.c",)), False),
                 ("asan-hist-extra", cx.exe("asan-hist-extra", driver=("drv/hist.c",), defs=["EAV_EXTRA"]), True)]
     jobs = []
-    L = 4 if tier == "quick" else 5
+    L = 5 if tier == "quick" else 5
     progs = list(exhaustive(mdl, HM.POOL7, L))
     if tier != "quick":
         # length 6 with canonical pruning: fixed 'r? s' prefix, remaining four ops free
         ops = HM.alphabet(mdl, len(HM.POOL7))
-        for r in ("r0", "r3"):
+        for r in ("r0", "r1", "r2", "r3"):
             for seq in itertools.product(ops, repeat=4):
                 if any(o[0] == "e" for o in seq):
                     progs.append([r, "s"] + list(seq))
@@ -74,7 +74,7 @@ def main(tier, seed):
     big = [a for a in big if len(a) < 400]
     rng.shuffle(big)
     big = big[:1000]
-    nseq = 1000 if tier == "quick" else 20000
+    nseq = 3000 if tier == "quick" else 40000
     for vi, (name, exe, extra) in enumerate(variants):
         for j in range(16 if tier == "quick" else 64):
             r = random.Random(seed * 31337 + j * 2 + vi)
